@@ -8,6 +8,7 @@ from typing import Optional
 
 from ..astutil import is_self_attr, u
 from ..cfg import flow
+from ..normalise import is_marker
 from ..model import AnalysisError, Cls, Fn, Prog, loc
 from ..report import Ctx
 
@@ -90,7 +91,7 @@ def flag_rule(ctx: Ctx, R: Runner, rule: str) -> None:
         nid = cfg.node_for(n)
         # last step: its only successor is the normal exit, and it is not inside try/finally/with/loop
         succ = list(cfg.g.successors(nid)) if nid is not None else []
-        nested = any(isinstance(a, (ast.Try, ast.With, ast.For, ast.While, ast.If)) for a in prog.ancestors(n) if a is not ev.node and not isinstance(a, (ast.FunctionDef, ast.ClassDef, ast.Module)))
+        nested = any(isinstance(a, (ast.Try, ast.With, ast.For, ast.While, ast.If)) and not is_marker(a) for a in prog.ancestors(n) if a is not ev.node and not isinstance(a, (ast.FunctionDef, ast.ClassDef, ast.Module)))
         ctx.ob(rule, "flag:set-last-on-success-only", truthy and succ == [cfg.exit] and not nested, loc(f.mod, n),
                f"`{u(st)}` must be the last, unconditional statement of the evaluator, so that a failed evaluation is retried rather than half-visible")
     ctx.ob(rule, "flag:initialised", init_ok, R.cls.loc(), "the flag is initialised to False in __init__", trivial=True)
